@@ -47,6 +47,8 @@ pub struct SendRec {
     pub read_only: bool,
     /// the callee ran and exited with code 0
     pub ok: bool,
+    /// data returned by the callee (meaningful when ok)
+    pub ret: Option<IpldBlock>,
 }
 
 pub enum CallerSet {
@@ -88,6 +90,8 @@ pub struct Rt {
     pub state_id: Ghost<int>,
     pub deleted: Ghost<bool>,
     pub events: Ghost<nat>,
+    /// state ids committed by the transactions of THIS activation, in order (not disturbed by later sends)
+    pub tx_log: Ghost<Seq<int>>,
 }
 
 pub uninterp spec fn rt_state<S>(id: int) -> S;
@@ -95,6 +99,21 @@ pub uninterp spec fn rt_state<S>(id: int) -> S;
 pub uninterp spec fn rt_resolve(a: Address) -> Option<ActorID>;
 pub uninterp spec fn rt_code_of(id: ActorID) -> Option<Cid>;
 pub uninterp spec fn rt_builtin_type(c: Cid) -> Option<Type>;
+
+/// "the callee never calls back into this actor" — an explicit assumption a unit may make about a particular
+/// (receiver, method) pair (e.g. read-only queries to singleton actors); never assumed implicitly
+pub uninterp spec fn rt_no_reentry(to: Address, method: MethodNum) -> bool;
+
+/// everything of the runtime that a send never changes
+pub open spec fn rt_frame(o: &Rt, f: &Rt) -> bool {
+    &&& f.msg == o.msg && f.caller_type == o.caller_type && f.caller_namespace == o.caller_namespace
+    &&& f.epoch == o.epoch && f.read_only == o.read_only && f.validated == o.validated
+    &&& f.in_tx == o.in_tx && f.deleted == o.deleted && f.tx_log == o.tx_log
+}
+/// exactly one send record was appended
+pub open spec fn rt_pushed(o: &Rt, f: &Rt) -> bool {
+    f.sends@.len() == o.sends@.len() + 1 && f.sends@ == o.sends@.push(f.sends@.last())
+}
 
 pub open spec fn caller_in(rt: &Rt, s: CallerSet) -> bool {
     match s {
@@ -236,7 +255,8 @@ impl Rt {
             res.is_err() ==> r == res && *final(self) == (Rt { in_tx: Ghost(false), ..*old(self) }),
             res.is_ok() && r.is_ok() ==> r == res
                 && rt_state::<S>(final(self).state_id@) == st
-                && *final(self) == (Rt { in_tx: Ghost(false), state_id: final(self).state_id, ..*old(self) }),
+                && final(self).tx_log@ == old(self).tx_log@.push(final(self).state_id@)
+                && *final(self) == (Rt { in_tx: Ghost(false), state_id: final(self).state_id, tx_log: final(self).tx_log, ..*old(self) }),
             res.is_ok() && r.is_err() ==> *final(self) == (Rt { in_tx: Ghost(false), ..*old(self) }),
             res.is_ok() && !old(self).read_only ==> r.is_ok(),
     { unimplemented!() }
@@ -255,15 +275,15 @@ impl Rt {
         requires !old(self).in_tx@
         ensures
             final(self).sends@ == old(self).sends@.push(SendRec { to: *to, method, params, value: value@, read_only: flags.bits % 2 == 1,
-                ok: r.is_ok() && r->Ok_0.exit_code.value == 0 }),
+                ok: r.is_ok() && r->Ok_0.exit_code.value == 0, ret: if r.is_ok() { r->Ok_0.return_data } else { None } }),
             final(self).msg == old(self).msg, final(self).caller_type == old(self).caller_type,
             final(self).caller_namespace == old(self).caller_namespace, final(self).epoch == old(self).epoch,
             final(self).read_only == old(self).read_only, final(self).validated == old(self).validated,
-            final(self).in_tx == old(self).in_tx, final(self).deleted == old(self).deleted,
+            final(self).in_tx == old(self).in_tx, final(self).deleted == old(self).deleted, final(self).tx_log == old(self).tx_log,
             // value moves iff the callee exited with 0; the callee (or what it calls) may send funds back
             (r.is_ok() && r->Ok_0.exit_code.value == 0) ==> 0 <= value@ <= old(self).balance@
                 && final(self).balance@ >= old(self).balance@ - value@,
-            (r.is_ok() && r->Ok_0.exit_code.value == 0 && (method == METHOD_SEND || flags.bits % 2 == 1)) ==>
+            (r.is_ok() && r->Ok_0.exit_code.value == 0 && (method == METHOD_SEND || flags.bits % 2 == 1 || rt_no_reentry(*to, method))) ==>
                 final(self).balance@ == old(self).balance@ - value@ && final(self).state_id == old(self).state_id,
             // a failed send reverts everything the callee did
             !(r.is_ok() && r->Ok_0.exit_code.value == 0) ==> final(self).balance == old(self).balance
@@ -277,14 +297,14 @@ impl Rt {
         requires !old(self).in_tx@
         ensures
             final(self).sends@ == old(self).sends@.push(SendRec { to: *to, method, params, value: value@, read_only: false,
-                ok: r.is_ok() && r->Ok_0.exit_code.value == 0 }),
+                ok: r.is_ok() && r->Ok_0.exit_code.value == 0, ret: if r.is_ok() { r->Ok_0.return_data } else { None } }),
             final(self).msg == old(self).msg, final(self).caller_type == old(self).caller_type,
             final(self).caller_namespace == old(self).caller_namespace, final(self).epoch == old(self).epoch,
             final(self).read_only == old(self).read_only, final(self).validated == old(self).validated,
-            final(self).in_tx == old(self).in_tx, final(self).deleted == old(self).deleted,
+            final(self).in_tx == old(self).in_tx, final(self).deleted == old(self).deleted, final(self).tx_log == old(self).tx_log,
             (r.is_ok() && r->Ok_0.exit_code.value == 0) ==> 0 <= value@ <= old(self).balance@
                 && final(self).balance@ >= old(self).balance@ - value@,
-            (r.is_ok() && r->Ok_0.exit_code.value == 0 && method == METHOD_SEND) ==>
+            (r.is_ok() && r->Ok_0.exit_code.value == 0 && (method == METHOD_SEND || rt_no_reentry(*to, method))) ==>
                 final(self).balance@ == old(self).balance@ - value@ && final(self).state_id == old(self).state_id,
             !(r.is_ok() && r->Ok_0.exit_code.value == 0) ==> final(self).balance == old(self).balance
                 && final(self).state_id == old(self).state_id && final(self).events == old(self).events,
